@@ -79,6 +79,8 @@ impl Run {
         let seed = std::env::var("VERIF_SEED").ok().and_then(|s| s.parse().ok()).unwrap_or(0);
         // replays of an earlier run of this property are stale
         let _ = std::fs::remove_dir_all(verif_dir().join("replays").join(prop));
+        // kept in place for the overflow handler, which must not allocate (removed again by `finish` when empty)
+        let _ = std::fs::create_dir_all(verif_dir().join("replays").join(prop));
         let kf = verif_dir().join("known_findings.json");
         let mut known = Vec::new();
         if let Ok(s) = std::fs::read_to_string(&kf) {
@@ -173,6 +175,8 @@ impl Run {
         }
         if !viols.is_empty() {
             std::fs::create_dir_all(&rdir).ok();
+        } else {
+            let _ = std::fs::remove_dir(&rdir); // only succeeds when empty
         }
         for (i, (k, d)) in viols.iter().enumerate() {
             let p = rdir.join(format!("viol_{:03}_{:016x}.json", i, h64(k)));
@@ -295,6 +299,10 @@ pub fn thread_altstack() {
 /// these checks needs a gigabyte of stack); otherwise it is a machinery error.
 pub fn install_crash_handler() {
     thread_altstack();
+    let prop = std::env::args().nth(1).unwrap_or_default().to_uppercase();
+    let dir = verif_dir().join("replays").join(&prop);
+    let _ = CRASH_PROP.set(prop.into_bytes());
+    let _ = CRASH_DIR.set(dir.to_string_lossy().as_bytes().to_vec());
     unsafe {
         let mut sa: libc::sigaction = std::mem::zeroed();
         sa.sa_sigaction = on_crash as usize;
@@ -304,28 +312,101 @@ pub fn install_crash_handler() {
     }
 }
 
+static CRASH_DIR: OnceLock<Vec<u8>> = OnceLock::new();
+static CRASH_PROP: OnceLock<Vec<u8>> = OnceLock::new();
+
+/// fixed-size byte sink (the handler must not allocate: the dying thread may hold the allocator's lock)
+struct Buf<const N: usize> {
+    b: [u8; N],
+    n: usize,
+}
+
+impl<const N: usize> Buf<N> {
+    fn push(&mut self, bytes: &[u8]) {
+        let k = bytes.len().min(N - self.n);
+        self.b[self.n..self.n + k].copy_from_slice(&bytes[..k]);
+        self.n += k;
+    }
+    fn json_escaped(&mut self, bytes: &[u8]) {
+        const HEX: &[u8; 16] = b"0123456789abcdef";
+        for &c in bytes {
+            match c {
+                b'"' => self.push(b"\\\""),
+                b'\\' => self.push(b"\\\\"),
+                0..=0x1f => self.push(&[b'\\', b'u', b'0', b'0', HEX[(c >> 4) as usize], HEX[(c & 15) as usize]]),
+                _ => self.push(&[c]),
+            }
+        }
+    }
+    fn bytes(&self) -> &[u8] {
+        &self.b[..self.n]
+    }
+}
+
 extern "C" fn on_crash(_sig: i32, _info: *mut libc::siginfo_t, _ctx: *mut libc::c_void) {
     unsafe {
-        libc::alarm(20); // should anything below block (allocator lock held by the dying thread), die as a machinery error
+        libc::alarm(20); // should anything below block after all, die as a machinery error (exit status 142)
     }
+    // no allocation below this line
     let slot = SLOT.try_with(|s| s.get()).unwrap_or(usize::MAX);
-    let entry = WATCH.get().and_then(|w| w.lock().ok().and_then(|g| g.get(slot).cloned().flatten()));
-    let prop = std::env::args().nth(1).unwrap_or_default().to_uppercase();
-    match entry {
-        Some(e) => {
-            let vd = verif_dir().join("replays").join(&prop);
-            std::fs::create_dir_all(&vd).ok();
-            let p = vd.join(format!("overflow_{:016x}.json", h64(&e.0)));
-            std::fs::write(&p, serde_json::to_string_pretty(&json!({"property": prop, "key": e.0, "detail": {"what": "the implementation overflowed the native stack of its thread on this case (1 GiB in the rayon workers of the exhaustive checks, 1 MiB in the C04 workers)"}})).unwrap()).ok();
-            eprintln!("stack overflow on case: {}", e.0);
-            println!("VIOLATION property={} replay={}", prop, p.display());
-            unsafe { libc::_exit(1) }
-        }
-        None => {
-            eprintln!("machinery error: SIGSEGV/stack overflow outside a registered case");
-            unsafe { libc::_exit(2) }
+    let mut key = Buf::<8192> { b: [0; 8192], n: 0 };
+    if let Some(w) = WATCH.get() {
+        if let Ok(g) = w.lock() {
+            if let Some(Some(e)) = g.get(slot) {
+                let kb = e.0.as_bytes();
+                let mut k = kb.len().min(8000);
+                while k > 0 && k < kb.len() && (kb[k] & 0xC0) == 0x80 {
+                    k -= 1; // do not cut a character
+                }
+                key.push(&kb[..k]);
+            }
         }
     }
+    let out = |fd: i32, b: &[u8]| unsafe {
+        libc::write(fd, b.as_ptr() as *const libc::c_void, b.len());
+    };
+    if key.n == 0 {
+        out(2, b"machinery error: SIGSEGV/stack overflow outside a registered case\n");
+        unsafe { libc::_exit(2) }
+    }
+    let prop: &[u8] = CRASH_PROP.get().map(|v| &v[..]).unwrap_or(b"?");
+    // file name from a hash of the key
+    #[allow(deprecated)]
+    let mut h = std::hash::SipHasher::new_with_keys(0x7665_7269, 0x6d63);
+    h.write(key.bytes());
+    let hv = h.finish();
+    let mut path = Buf::<4096> { b: [0; 4096], n: 0 };
+    path.push(CRASH_DIR.get().map(|v| &v[..]).unwrap_or(b"/tmp"));
+    path.push(b"/overflow_");
+    const HEX: &[u8; 16] = b"0123456789abcdef";
+    for i in (0..16).rev() {
+        path.push(&[HEX[((hv >> (4 * i)) & 15) as usize]]);
+    }
+    path.push(b".json");
+    let plen = path.n;
+    path.push(&[0]);
+    let mut body = Buf::<32768> { b: [0; 32768], n: 0 };
+    body.push(b"{\n  \"property\": \"");
+    body.push(prop);
+    body.push(b"\",\n  \"key\": \"");
+    body.json_escaped(key.bytes());
+    body.push(b"\",\n  \"detail\": {\"what\": \"the implementation overflowed the native stack of its thread on this case (1 GiB in the rayon workers of the exhaustive checks, 1 MiB in the C04 workers)\"}\n}\n");
+    unsafe {
+        let fd = libc::open(path.b.as_ptr() as *const libc::c_char, libc::O_WRONLY | libc::O_CREAT | libc::O_TRUNC, 0o644);
+        if fd >= 0 {
+            libc::write(fd, body.b.as_ptr() as *const libc::c_void, body.n);
+            libc::close(fd);
+        }
+    }
+    out(2, b"stack overflow on case: ");
+    out(2, key.bytes());
+    out(2, b"\n");
+    out(1, b"VIOLATION property=");
+    out(1, prop);
+    out(1, b" replay=");
+    out(1, &path.b[..plen]);
+    out(1, b"\n");
+    unsafe { libc::_exit(1) }
 }
 
 /// Run `f` under the watchdog. `verdict`: a time-out is a divergence violation (the model terminated),
